@@ -58,6 +58,11 @@ extern int wl_debug;
     } while (0)
 int wl_pool_is_user(ABT_pool pool);
 ABT_sched wl_make_user_sched(int n, ABT_pool *pools);
+/* a pool made from the legacy ABT_pool_def (has is_in_pool/remove); for workloads that set up
+ * their own runtime: call wl_user_pools_reset() first and wl_user_pools_check() after ABT_finalize */
+ABT_pool wl_make_legacy_pool(int failing_remove);
+void wl_user_pools_reset(void);
+void wl_user_pools_check(void);
 int wl_thread_is_in_pool(ABT_thread th);
 
 /* spin until *flag != 0 from a non-ULT context (external thread) */
